@@ -101,6 +101,14 @@ CHECKS = {
             "registers, rsp, the canaries, MXCSR control bits, DF and the x87/MMX tag word are compared.",
             "System V AMD64 ABI; MXCSR status bits are not preserved by definition; array/source integrity is C01/C03's subject",
             "DESIGN.md 4/C10", True),
+    "C03": ("xmem", "exploration",
+            "bounded exhaustive enumeration of programs x execution paths x n x guard-page placements on the real code, entitlement computed from the opcode definitions",
+            "Every program of the enumerated levels is run natively (avx, sse, mmx) and by emulation for every n in 0..N with each array "
+            "holding exactly the entitled elements and placed flush after a leading or before a trailing PROT_NONE page, rows separated "
+            "by unmapped pages, sources mapped read-only, executor scratch fields holding garbage; any fault or any changed destination "
+            "byte outside elements 0..n-1 is reported with array, direction and offset.",
+            "entitlement of the resampling/upsampling loads follows the opcode table's index expressions; declared alignments larger than the element size prevent flush placement of the last byte; generated-C path not run under guard pages",
+            "DESIGN.md 4/C03", True),
 }
 
 NOT_YET = {}
@@ -141,6 +149,8 @@ def main():
             "add_only": True,
         },
         "engines": [
+            {"name": "xmem", "path": "engines/xmem.c", "serves_properties": ["C03"],
+             "kind_free_text": "guard-page explorer: per-array mappings with PROT_NONE neighbours, exact entitlement, native + emulation paths"},
             {"name": "xabi", "path": "engines/xabi.c", "serves_properties": ["C10"],
              "kind_free_text": "assembly trampoline + enumerator over compiled programs, n and MXCSR seeds"},
             {"name": "xdet", "path": "engines/xdet.c", "serves_properties": ["C17"],
